@@ -26,6 +26,15 @@ CHECKS = {
             {"name": "smoke", "pkg": "pkg/verifflow", "harness": "flow", "run": "^TestVerifFlow$", "instrument": True, "shards": 4},
         ],
     },
+    "C18": {
+        "rule": "IPv4: every address (thorough) / 4 addresses of every /24 + floor boundaries (quick) in 8 carrier forms; IPv6: all leading hextets x tails; dial: every resolver answer sequence <=2 (quick) / <=3 (thorough) x allowlists x ports; policy: all subset pairs of a 4-entry universe x refs x timeouts x sizes",
+        "parts": [
+            {"name": "ipv4", "pkg": "pkg/plugin/processor/egress", "harness": "c18", "run": "^TestVerifC18IPv4$", "shards": 16, "shards_thorough": 16, "timeout_thorough": "60m"},
+            {"name": "ipv6", "pkg": "pkg/plugin/processor/egress", "harness": "c18", "run": "^TestVerifC18IPv6$"},
+            {"name": "dial", "pkg": "pkg/plugin/processor/egress", "harness": "c18", "run": "^TestVerifC18Dial$", "shards": 8, "shards_thorough": 16},
+            {"name": "policy", "pkg": "pkg/plugin/processor/egress", "harness": "c18", "run": "^TestVerifC18Policy$", "shards": 8},
+        ],
+    },
     "C20": {
         "rule": "every error tree up to the stated depth over the constructor alphabet; distinct = distinct tree shapes; "
                 "non-trivial = trees containing at least one wrapper around a classified node",
